@@ -14,6 +14,7 @@ import (
 	"encoding/json"
 	"fmt"
 	"io"
+	"log"
 	"os"
 	"os/exec"
 	"runtime"
@@ -149,6 +150,7 @@ func WorkerMain(args []string) {
 		evid.Infra("seqx worker: nothing registered for %s", args[0])
 	}
 	spec := MakeSpec(mk, args[1], args[2])
+	log.SetOutput(io.Discard) // go-pfcp reports every unknown message type through the standard logger
 	in := bufio.NewReaderSize(os.Stdin, 1<<20)
 	out := bufio.NewWriterSize(os.Stdout, 1<<20)
 	send := func(r reply) {
@@ -285,12 +287,24 @@ type worker struct {
 }
 
 type tailBuf struct {
+	crash []byte
 	mu sync.Mutex
 	b  []byte
 }
 
 func (t *tailBuf) Write(p []byte) (int, error) {
 	t.mu.Lock()
+	if t.crash == nil {
+		// keep the beginning of the runtime's crash report: the tail alone may consist of goroutine dumps
+		for _, mark := range []string{"panic:", "fatal error:", "unexpected signal", "SIGSEGV", "SIGABRT"} {
+			if i := strings.Index(string(p), mark); i >= 0 {
+				t.crash = append([]byte{}, p[i:]...)
+				break
+			}
+		}
+	} else if len(t.crash) < 6000 {
+		t.crash = append(t.crash, p...)
+	}
 	t.b = append(t.b, p...)
 	if len(t.b) > 16384 {
 		t.b = t.b[len(t.b)-16384:]
@@ -299,7 +313,18 @@ func (t *tailBuf) Write(p []byte) (int, error) {
 	return len(p), nil
 }
 
-func (t *tailBuf) String() string { t.mu.Lock(); defer t.mu.Unlock(); return string(t.b) }
+func (t *tailBuf) String() string {
+	t.mu.Lock()
+	defer t.mu.Unlock()
+	if t.crash != nil {
+		c := t.crash
+		if len(c) > 6000 {
+			c = c[:6000]
+		}
+		return string(c) + "\n[...]\n" + string(t.b)
+	}
+	return string(t.b)
+}
 
 func startWorker(spec Spec, tier string) *worker {
 	exe := "/proc/self/exe" // the check script's private copy of the binary is unlinked at start
@@ -362,6 +387,9 @@ func (w *worker) runJob(j job) jobResult {
 			w.cmd.Wait()
 			w.alive = false
 			res.stderr = w.errb.String()
+			if ps := w.cmd.ProcessState; ps != nil {
+				res.stderr = "[worker " + ps.String() + "]\n" + res.stderr
+			}
 			return res
 		}
 		var r reply
@@ -662,6 +690,9 @@ func crashSite(stderr string) string {
 	if len(msg) > 80 {
 		msg = msg[:80]
 	}
+	if msg == "" && strings.Contains(stderr, "runtime.(*unwinder).next") {
+		msg = "SIGSEGV inside the Go runtime's goroutine traceback (runtime.Stack)"
+	}
 	return msg + "@" + frame
 }
 
@@ -817,6 +848,7 @@ func ExploreTargets(run *evid.Run, spec Spec, tier string, targets [][]Event, sm
 	seen := map[string]struct{}{}
 	outcomes := map[string]struct{}{}
 	results := make([]jobResult, len(targets))
+	var bad, skipped atomic.Int64
 	jobs := make(chan int, len(targets))
 	for i := range targets {
 		jobs <- i
@@ -830,17 +862,40 @@ func ExploreTargets(run *evid.Run, spec Spec, tier string, targets [][]Event, sm
 			w := startWorker(spec, tier)
 			defer func() { w.stop() }()
 			for i := range jobs {
+				if bad.Load() >= 3 {
+					// three targets have already produced violations: the tree is broken, the remaining targets
+					// (each costly on a tree that keeps crashing) are not run
+					skipped.Add(1)
+					continue
+				}
 				if !w.alive {
 					w = startWorker(spec, tier)
 				}
+				t0 := time.Now()
 				results[i] = w.runJob(job{ID: i, Hist: targets[i]})
+				if os.Getenv("VERIF_TIMING") != "" {
+					fmt.Fprintf(os.Stderr, "TIMING %s target %d [%s]: %v\n", spec.Scenario, i, HistString(targets[i]), time.Since(t0))
+				}
 				if results[i].crashed {
 					results[i] = retryCrashed(spec, tier, &w, job{ID: i, Hist: targets[i]}, results[i])
+				}
+				hit := results[i].crashed
+				for _, sc := range results[i].succ {
+					if len(sc.Viol) > 0 {
+						hit = true
+					}
+				}
+				if hit {
+					bad.Add(1)
 				}
 			}
 		}()
 	}
 	wg.Wait()
+	if n := skipped.Load(); n > 0 {
+		st.Exhaustive = false
+		fmt.Printf("NOTE %d of %d targets not run after three targets had produced violations\n", n, len(targets))
+	}
 	confirmW := startWorker(spec, tier)
 	defer func() { confirmW.stop() }()
 	for i, r := range results {
